@@ -193,6 +193,8 @@ def try_driver(lines: list[str], res, what: str):
 
 def run_driver(lines: list[str], timeout=1800) -> list[str]:
     """Pipe command lines to the Lean model driver; one output line per input line."""
+    if not lines:          # nothing to ask (e.g. the replay of a scenario that has no model commands)
+        return []
     inp = '\n'.join(lines) + '\n'
     p = subprocess.run(['lake', 'env', 'lean', '--run', 'Driver.lean'], cwd=LEAN, input=inp, capture_output=True, text=True,
                        timeout=timeout)
@@ -317,7 +319,9 @@ def write_replay(ctx: Ctx, payload: dict) -> str:
 
 
 def write_evidence(ctx: Ctx, res: Result, audit: dict, lean_state: dict, violations: int, assumptions: list[str]):
-    EVID.mkdir(exist_ok=True)
+    # a --replay run re-executes ONE recorded case: it reports its verdict but must not replace the evidence of the full check
+    evid_dir = EVID if not ctx.replay else VERIF / 'replays' / '_evidence_scratch'
+    evid_dir.mkdir(parents=True, exist_ok=True)
     obligations = len(audit)
     discharged = sum(1 for v in audit.values() if v['ok']) if lean_state.get('build_ok') and not lean_state.get('source_hits') else 0
     cov = {
@@ -343,9 +347,9 @@ def write_evidence(ctx: Ctx, res: Result, audit: dict, lean_state: dict, violati
         'coverage': cov, 'assumptions': assumptions + ctx.notes,
         'wall_s': round(time.time() - ctx.t0, 2), 'violations': violations,
     }
-    tmp = EVID / f'{ctx.prop}.json.tmp'
+    tmp = evid_dir / f'{ctx.prop}.json.tmp'
     tmp.write_text(json.dumps(ev, indent=1, default=str))
-    os.replace(tmp, EVID / f'{ctx.prop}.json')
+    os.replace(tmp, evid_dir / f'{ctx.prop}.json')
 
 
 def prepare_lean(ctx: Ctx) -> tuple[dict, dict]:
